@@ -260,3 +260,69 @@ def r19_5_units(ctx: Ctx) -> RuleResult:
     from ..dims import units_rule
 
     return units_rule(ctx, "R19.5", "C19", 5)
+
+
+@rule("C19")
+def r19_5_no_parameter_dropped_on_a_path(ctx: Ctx) -> RuleResult:
+    """Clock factories and views (FakeClock.from_utc, IClock.in_zone / in_utc, ZonedClock getters): a parameter that shapes the
+    result on one return path is not silently ignored on another path that was selected without looking at it."""
+    from ..core import anchor_files
+    from ..kit import per_return_ignored
+
+    rr = RuleResult("R19.7", "clock factories / views: no return path drops a parameter unless the path was chosen by testing that parameter", min_instances=10)
+    files = anchor_files("C19")
+    for f in sorted(set(ctx.M.func_of_node.values()), key=lambda x: x.qual):
+        if f.mod.rel not in files or isinstance(f.node, ast.Lambda):
+            continue
+        for r, ignored in per_return_ignored(f):
+            rr.inst()
+            if ignored:
+                rr.fail(f.qual, f"`return {unparse(r.value)[:70]}` ignores parameter(s) {sorted(ignored)}, which the other return path(s) use, and the path is not selected by testing them", ctx.loc(f, r))
+            else:
+                rr.ok()
+    return rr
+
+
+@rule("C19")
+def r19_6_lock_is_a_lock(ctx: Ctx) -> RuleResult:
+    """`with self.__lock:` only excludes other threads if the field holds a real lock on every path: each class whose methods
+    guard state with a lock field must store an unconditional threading.Lock() / RLock() into it."""
+    rr = RuleResult("R19.6", "every lock field used in a `with` is initialised unconditionally with threading.Lock() / RLock()", min_instances=3)
+    M = ctx.M
+    for c in sorted(M.all_classes(), key=lambda x: x.qual):
+        if "_compatibility" in c.mod.rel:
+            continue
+        used: set[str] = set()
+        for f in c.all_defs:
+            if isinstance(f.node, ast.Lambda):
+                continue
+            for r in lock_regions(f):
+                parts = r.lock.split(".")
+                if len(parts) == 2 and parts[0] in ("self", "cls"):
+                    used.add(parts[1])
+        for fld in sorted(used):
+            rr.inst()
+            stores = []
+            for k in M.mro(c):
+                for f in k.all_defs:
+                    if isinstance(f.node, ast.Lambda):
+                        continue
+                    for n in own_nodes(f.node):
+                        tg = n.targets if isinstance(n, ast.Assign) else [n.target] if isinstance(n, ast.AnnAssign) and n.value is not None else []
+                        for t in tg:
+                            if isinstance(t, ast.Attribute) and mangle(k.name, t.attr) == mangle(k.name, fld):
+                                stores.append((f, n))
+                for n in k.node.body:
+                    tg = n.targets if isinstance(n, ast.Assign) else [n.target] if isinstance(n, ast.AnnAssign) and n.value is not None else []
+                    for t in tg:
+                        if isinstance(t, ast.Name) and mangle(k.name, t.id) == mangle(k.name, fld):
+                            stores.append((None, n))
+            real = lambda v: isinstance(v, ast.Call) and unparse(v.func) in ("threading.Lock", "threading.RLock", "Lock", "RLock", "_thread.allocate_lock")  # noqa: E731
+            if not stores:
+                rr.fail(c.qual, f"lock field `{fld}` is used in a `with` but never initialised in the class", c.mod.rel)
+            elif all(real(n.value) for _, n in stores):
+                rr.ok({"class": c.qual, "lock": fld})
+            else:
+                f, n = next((f, n) for f, n in stores if not real(n.value))
+                rr.fail(c.qual, f"lock field `{fld}` is initialised with `{unparse(n.value)[:70]}`: not a lock on every path, so `with` on it excludes nobody", ctx.loc(f, n) if f else c.mod.rel)
+    return rr
